@@ -643,6 +643,14 @@ func TestC09_Calls(t *testing.T) {
 				if ok, err := crypto.VerifyBLSSignatureManyMessages(pks, aggMany, msgs, hs); !ok || err != nil {
 					g.Fatalf("VerifyBLSSignatureManyMessages on the aggregate of %d valid signatures = (%v, %v)", n, ok, err)
 				}
+				// any signature string against well-formed lists: a verdict, never an error (whichever grouping the lists select)
+				hs1 := k.hostileSig(g, "sigForLists")
+				if ok, err := crypto.VerifyBLSSignatureManyMessages(pks, hs1, msgs, hs); err != nil || (ok && !bytes.Equal(hs1, aggMany)) {
+					g.Fatalf("VerifyBLSSignatureManyMessages(%d well-formed triples, signature %x) = (%v, %v): a false verdict without an error is documented", n, []byte(hs1), ok, err)
+				}
+				if ok, err := crypto.VerifyBLSSignatureOneMessage(pks, hs1, msg, hh); err != nil || ok {
+					g.Fatalf("VerifyBLSSignatureOneMessage(%d well-formed keys, signature %x) = (%v, %v): a false verdict without an error is documented", n, []byte(hs1), ok, err)
+				}
 				if bad == n {
 					aggOne, _ := crypto.AggregateBLSSignatures(sigs)
 					if ok, err := crypto.VerifyBLSSignatureOneMessage(pks, aggOne, msg, hh); !ok || err != nil {
